@@ -24,8 +24,8 @@ Open Scope string_scope.
      Eval:  the text/scanner loop does not panic; the positions stamped on the code that runs / is dumped
             carry indices lookup.Index returned, no key of the globals is empty, and the operands
             instruction.String hands to lookup.Key are valid (only when WithCodeDump is on)
-     Load:  the same, and reading the ARGUMENT package (rawLoadPackage / rawLoadFile, outside loadImports'
-            recover) does not panic
+     Load:  the same (reading the argument package needs no hypothesis any more: loadPackage / loadFile run under
+            recoverLoad since 8db5477, a panic there is "error in load: ...")
      Call / Func: the positions of the code that was running when a panic was raised are stamped as above *)
 Theorem c03_contain : forall (unq : string -> bool) (e : entry),
   entry_hyps e -> forall w, entry_model unq e <> Escape w.
@@ -136,7 +136,7 @@ Theorem c03_inv_func : forall x b, func_beh_ok b -> forall w, func_model x b <> 
 Proof. exact func_contained_neq. Qed.
 Print Assumptions c03_inv_func.
 
-(* ---- the inputs that used to escape (fixed in /repo: bc98689 371cd14 47eb9a0 29c9c35 6607b34) ------------ *)
+(* ---- the inputs that used to escape (fixed in /repo: bc98689 371cd14 47eb9a0 29c9c35 6607b34 8db5477) ---- *)
 
 Definition quiet_adv (stmts : list tree) : eval_adv :=
   mkEvalAdv (ScanOk []) (PRet stmts) (FRet (fun _ => None) (fun _ => []) 100)
@@ -173,6 +173,11 @@ Example c03_fixed_pos_clamp :
   code_dump_ok true keys [mkDins p []; mkDins q []] = true /\
   pos_file (new_pos 70000 66 1 1) = 65535%Z.
 Proof. vm_compute. repeat split; reflexivity. Qed.
+
+(* Load of a package whose file says `*package`: rawLoadPackage's first.Tokens[0] panics, recoverLoad returns it *)
+Example c03_fixed_package_clause :
+  forall o files comp run rets, load_model unq_go false "pkg" o (mkLoadAdv TopPanic files comp run rets) = Err "error in load: ".
+Proof. reflexivity. Qed.
 
 (* Load of a package whose top-level code leaves a value: a run error *)
 Example c03_load_prefixed :
